@@ -190,6 +190,14 @@ class OptimizerGeneric:
                                        bounds=bounds,
                                        options=options,
                                        tol=tol)
+        return self._finish(result)
+
+    def _finish(self, result):
+        """Leave the lens at the returned solution (scipy's last evaluation
+        is in general a different point) and re-apply pickups and solves."""
+        for idvar, var in enumerate(self.problem.variables):
+            var.update(result.x[idvar])
+        self.problem.update_optics()
         return result
 
     def undo(self):
@@ -282,7 +290,7 @@ class LeastSquares(OptimizerGeneric):
                                             max_nfev=maxiter,
                                             verbose=verbose,
                                             ftol=tol)
-        return result
+        return self._finish(result)
 
 
 class DualAnnealing(OptimizerGeneric):
@@ -324,7 +332,7 @@ class DualAnnealing(OptimizerGeneric):
                                              bounds=bounds,
                                              maxiter=maxiter,
                                              x0=x0)
-        return result
+        return self._finish(result)
 
 
 class DifferentialEvolution(OptimizerGeneric):
@@ -386,4 +394,4 @@ class DifferentialEvolution(OptimizerGeneric):
                                                      disp=disp,
                                                      updating=updating,
                                                      workers=workers)
-        return result
+        return self._finish(result)
